@@ -18,8 +18,19 @@ Record cenv : Type := {
   c_functions : list (string * bool);       (* `functions` map as insertion log (name, is_foreign); last wins *)
   c_chunks : list string;                   (* names of vm.bytecode; index 0 is <main> *)
   c_ffi : list string;                      (* keys of vm.ffi_callables by index *)
-  c_structs : list (string * list string)   (* vm.struct_infos by index *)
+  c_structs : list (string * list string);  (* vm.struct_infos by index *)
+  c_units : list (string * nat)             (* unit_name_to_constant_index as insertion log; last wins *)
 }.
+
+(* HashMap::get on the insertion log of unit_name_to_constant_index *)
+Fixpoint unit_lookup (x : string) (l : list (string * nat)) : option nat :=
+  match l with
+  | [] => None
+  | (y, i) :: r => match unit_lookup x r with
+                   | Some j => Some j
+                   | None => if String.eqb y x then Some i else None
+                   end
+  end.
 
 (* Iterator::rposition *)
 Fixpoint rposition_from (x : string) (l : list string) (i : nat) (acc : option nat) : option nat :=
@@ -127,6 +138,12 @@ Fixpoint cexpr (ce : cenv) (e : expr Q) (nk na : nat) {struct e} : frag :=
   | EScalar q => {| f_consts := [CScalar q]; f_code := [ILoadConstant nk]; f_na := na |}
   | EBool b => {| f_consts := [CBool b]; f_code := [ILoadConstant nk]; f_na := na |}
   | EIdent x => cident ce x nk na
+  | EUnit x =>
+      (* unit_name_to_constant_index.get(unit_name).expect("unit should already exist") *)
+      match unit_lookup x (c_units ce) with
+      | Some idx => {| f_consts := []; f_code := [ILoadConstant idx]; f_na := na |}
+      | None => {| f_consts := []; f_code := [ICompilePanic]; f_na := na |}
+      end
   | EUn op a =>
       femit (cexpr ce a nk na)
             [match op with UFact k => chk16 k (IUn op) | _ => IUn op end]
@@ -202,7 +219,7 @@ Fixpoint cexpr (ce : cenv) (e : expr Q) (nk na : nat) {struct e} : frag :=
 
 Definition with_locals (ce : cenv) (ls : option (list string)) : cenv :=
   {| c_globals := c_globals ce; c_locals := ls; c_functions := c_functions ce;
-     c_chunks := c_chunks ce; c_ffi := c_ffi ce; c_structs := c_structs ce |}.
+     c_chunks := c_chunks ce; c_ffi := c_ffi ce; c_structs := c_structs ce; c_units := c_units ce |}.
 
 (* the where-locals of a function: compile_define_variable at depth 1 *)
 Fixpoint clocals (ce : cenv) (ls : list string) (wl : list (string * expr Q)) (nk na : nat)
@@ -227,17 +244,18 @@ Record cstate : Type := {
   s_consts : list (const Q);
   s_na : nat;
   s_main : list instr;
-  s_fns : list (string * list instr)      (* vm.bytecode[1..] *)
+  s_fns : list (string * list instr);     (* vm.bytecode[1..] *)
+  s_strings : list string                 (* vm.strings: compile-time texts of PrintString *)
 }.
 
 Definition cinit (procs : list string) : cstate :=
   {| s_env := {| c_globals := []; c_locals := None; c_functions := []; c_chunks := ["<main>"];
-                 c_ffi := procs; c_structs := [] |};
-     s_consts := []; s_na := 0; s_main := []; s_fns := [] |}.
+                 c_ffi := procs; c_structs := []; c_units := [] |};
+     s_consts := []; s_na := 0; s_main := []; s_fns := []; s_strings := [] |}.
 
 Definition upd_env (st : cstate) (ce : cenv) (fr : frag) (main_extra : list instr) : cstate :=
   {| s_env := ce; s_consts := s_consts st ++ f_consts fr; s_na := f_na fr;
-     s_main := s_main st ++ f_code fr ++ main_extra; s_fns := s_fns st |}.
+     s_main := s_main st ++ f_code fr ++ main_extra; s_fns := s_fns st; s_strings := s_strings st |}.
 
 (* compile_statement *)
 Definition cstmt (s : stmt Q) (st : cstate) : cstate :=
@@ -248,7 +266,7 @@ Definition cstmt (s : stmt Q) (st : cstate) : cstate :=
   | SLet x e =>
       let ce' := {| c_globals := c_globals ce ++ [x]; c_locals := c_locals ce;
                     c_functions := c_functions ce; c_chunks := c_chunks ce;
-                    c_ffi := c_ffi ce; c_structs := c_structs ce |} in
+                    c_ffi := c_ffi ce; c_structs := c_structs ce; c_units := c_units ce |} in
       upd_env st ce' (cexpr ce e nk (s_na st)) []
   | SFn f params wl body =>
       (* begin_function pushes the chunk; the function is registered in `functions`
@@ -256,23 +274,23 @@ Definition cstmt (s : stmt Q) (st : cstate) : cstate :=
       let ce' := {| c_globals := c_globals ce; c_locals := None;
                     c_functions := c_functions ce ++ [(f, false)];
                     c_chunks := c_chunks ce ++ [f];
-                    c_ffi := c_ffi ce; c_structs := c_structs ce |} in
+                    c_ffi := c_ffi ce; c_structs := c_structs ce; c_units := c_units ce |} in
       let fr := cfun ce' params wl body nk (s_na st) in
       {| s_env := ce'; s_consts := s_consts st ++ f_consts fr; s_na := f_na fr;
-         s_main := s_main st; s_fns := s_fns st ++ [(f, f_code fr)] |}
+         s_main := s_main st; s_fns := s_fns st ++ [(f, f_code fr)]; s_strings := s_strings st |}
   | SForeign f =>
       let ce' := {| c_globals := c_globals ce; c_locals := None;
                     c_functions := c_functions ce ++ [(f, true)];
                     c_chunks := c_chunks ce;
-                    c_ffi := add_key f (c_ffi ce); c_structs := c_structs ce |} in
+                    c_ffi := add_key f (c_ffi ce); c_structs := c_structs ce; c_units := c_units ce |} in
       {| s_env := ce'; s_consts := s_consts st; s_na := s_na st;
-         s_main := s_main st; s_fns := s_fns st |}
+         s_main := s_main st; s_fns := s_fns st; s_strings := s_strings st |}
   | SStruct n fs =>
       let ce' := {| c_globals := c_globals ce; c_locals := None;
                     c_functions := c_functions ce; c_chunks := c_chunks ce;
-                    c_ffi := c_ffi ce; c_structs := add_struct n fs (c_structs ce) |} in
+                    c_ffi := c_ffi ce; c_structs := add_struct n fs (c_structs ce); c_units := c_units ce |} in
       {| s_env := ce'; s_consts := s_consts st; s_na := s_na st;
-         s_main := s_main st; s_fns := s_fns st |}
+         s_main := s_main st; s_fns := s_fns st; s_strings := s_strings st |}
   | SProc name args =>
       let fargs := cseq (map (fun a => cexpr ce a) args) nk (s_na st) in
       let n := length args in
@@ -283,6 +301,21 @@ Definition cstmt (s : stmt Q) (st : cstate) : cstate :=
                            f_na := S (f_na fargs) |} []
       | None => upd_env st ce (femit fargs [ICompilePanic]) []
       end
+  | SDim => st      (* Statement::DefineDimension: nothing happens at run time *)
+  | SUnitBase n =>
+      (* Statement::DefineBaseUnit: a Constant::Unit, and the name -> constant index entry *)
+      let ce' := {| c_globals := c_globals ce; c_locals := None;
+                    c_functions := c_functions ce; c_chunks := c_chunks ce;
+                    c_ffi := c_ffi ce; c_structs := c_structs ce;
+                    c_units := c_units ce ++ [(n, nk)] |} in
+      {| s_env := ce'; s_consts := s_consts st ++ [CUnit n]; s_na := s_na st;
+         s_main := s_main st; s_fns := s_fns st; s_strings := s_strings st |}
+  | SType text =>
+      (* ProcedureKind::Type: vm.add_string(…) and Op::PrintString *)
+      let idx := length (s_strings st) in
+      {| s_env := ce; s_consts := s_consts st; s_na := s_na st;
+         s_main := s_main st ++ [chk16 idx (IPrintString idx)]; s_fns := s_fns st;
+         s_strings := s_strings st ++ [text] |}
   end.
 
 Definition cstmts (p : program Q) (st : cstate) : cstate :=
@@ -294,7 +327,8 @@ Record compiled : Type := {
   p_chunks : list (string * list instr);   (* index 0: <main> *)
   p_ffi : list string;
   p_structs : list (string * list string);
-  p_globals : list string
+  p_globals : list string;
+  p_strings : list string
 }.
 
 Definition finish (st : cstate) : compiled :=
@@ -302,7 +336,8 @@ Definition finish (st : cstate) : compiled :=
      p_chunks := ("<main>", s_main st) :: s_fns st;
      p_ffi := c_ffi (s_env st);
      p_structs := c_structs (s_env st);
-     p_globals := c_globals (s_env st) |}.
+     p_globals := c_globals (s_env st);
+     p_strings := s_strings st |}.
 
 Definition compile (procs : list string) (p : program Q) : compiled :=
   finish (cstmts p (cinit procs)).
